@@ -96,6 +96,7 @@ void pmc_run(const char* config) {
     mv_init(); mvp::use_fast_stacks(true);
     mv_on_deadlock = on_deadlock;
     mv_time_deviations(strstr(extra, "tdev") != nullptr);
+    if (strstr(extra, "plain")) { mv_plain_region(&st.rw, sizeof st.rw); mv_plain_region(&st.qrw, sizeof st.qrw); }     // plain accesses to the lock objects are scheduling points too
     mv_tso(strstr(extra, "tso") != nullptr); mv_switch_points(0);     // built with -DPHOTON_VERIF for the TSC hook only
     st.prog.run(body);
     if (st.acquired != st.released) pmc_violation("acquire-release-mismatch", "%d/%d", st.acquired, st.released);
@@ -128,6 +129,8 @@ static const PmcConfig CFG[] = {
     {"q:W|W:tso",      3, {1,2}, {0,0}, {1,1}, {2,3}, ""},
     {"q:R,R|W:tso",    2, {1,1}, {0,0}, {1,1}, {2,2}, ""},
     {"r:W|R:tso",      3, {1,1}, {0,0}, {1,1}, {2,2}, ""},
+    {"r:W|R:plain",    3, {1,2}, {0,0}, {0,0}, {0,0}, "plain accesses to the lock object (state word, wait queue) are scheduling points too"},
+    {"q:W|R:plain",    3, {1,2}, {0,0}, {0,0}, {0,0}, ""},
     {"r:W|w:tdev",     3, {1,2}, {1,1}, {0,0}, {2,3}, "a waiter gives up exactly when it is being admitted"},
     {"q:W|w:tdev",     3, {1,2}, {1,1}, {0,0}, {2,3}, ""},
     {"q:W|r:tdev",     3, {1,2}, {1,1}, {0,0}, {2,2}, ""},
